@@ -39,6 +39,8 @@ def main():
     n = os.path.basename(src.rstrip("/")).replace("change", "")
     if "/seed2/" in src:
         n = str(int(n) + 3)
+    if "/seed8/" in src:
+        n = str(int(n) + 21)
     if "/seed7/" in src:
         n = str(int(n) + 18)
     if "/seed6/" in src:
